@@ -650,7 +650,7 @@ func VerifNewWorld(op string) (*VerifWorld, string) {
 	}
 	w.tor = tor
 	w.t = tor.torrent
-	return w, "ok " + w.observe()
+	return w, fmt.Sprintf("ok isize=%d ", len(w.infoBytes)) + w.observe()
 }
 
 func verifErrClass(err error) string {
